@@ -204,7 +204,7 @@ package asset
 // (a successful Decode consumes input, a failed one ends the loop); decoded snapshots are delivered in order
 //@ func TiingoRepository.GetSince
 //@ ensures[C19] "stream-is-closed-on-every-path" result1 == nil ==> closed(result0)
-//@ guarantees[C19] "non-success-status-is-an-error" result1 == nil ==> res(http_Client_Do, 0, 0).StatusCode == 200
+//@ guarantees[C19,C12] "non-success-status-is-an-error" result1 == nil ==> res(http_Client_Do, 0, 0).StatusCode == 200
 //@ loop#0 invariant !closed(snapshots) && extrem(decoder) >= 0
 //@ loop#0 decreases extrem(decoder)
 
